@@ -41,6 +41,7 @@ static std::string join(const std::vector<long long>& v)
 
 // modrun <seed> <consumer mode 0 eager | 1 slow (1 byte / 200us) | 2 stalls> <audio mode 0 prequeued-trickle | 1 bursty>
 //        <keyups> <frames per keyup (full 320-sample blocks fed while active)> <extra samples> <nsrc> src... <ndst> dst...
+//        [optional: per key-up pairs <frames_k> <extra_k> overriding the common values]
 // reply: <final state> <exception 0/1> | bytes...
 static std::string modrun(const Args& a)
 {
@@ -50,6 +51,8 @@ static std::string modrun(const Args& a)
     for (size_t i = 0; i < ns; ++i) src.push_back(char(a.at(7 + i)));
     size_t nd = size_t(a.at(7 + ns));
     for (size_t i = 0; i < nd; ++i) dst.push_back(char(a.at(8 + ns + i)));
+    std::vector<std::pair<int, int>> plan(size_t(keyups), {frames, extra});
+    for (size_t k = 0, j = 8 + ns + nd; k < size_t(keyups) && j + 1 < a.size(); ++k, j += 2) plan[k] = {int(a[j]), int(a[j + 1])};
     std::mt19937 rng(seed);
     auto aq = std::make_shared<M17Modulator::audio_queue_t>();
     auto bq = std::make_shared<M17Modulator::bitstream_queue_t>();
@@ -84,7 +87,7 @@ static std::string modrun(const Args& a)
         // PREAMBLE and LINK_SETUP each consume one sample; then `frames` full blocks and `extra` samples
         feed(2);
         while (mod.state() != M17Modulator::State::ACTIVE) std::this_thread::sleep_for(1ms);
-        feed(frames * 320 + extra);
+        feed(plan[size_t(k)].first * 320 + plan[size_t(k)].second);
         while (aq->size() != 0) std::this_thread::sleep_for(1ms);
         std::this_thread::sleep_for(5ms);
         mod.ptt_off();
